@@ -72,7 +72,7 @@ Definition loop_body (l : list ev) (k : nat) : list ev := nth k (loops l) [].
 
 (* every path of the body returns (it never reaches the end of the iteration) *)
 Definition always_returns (body : list ev) (e : env) : Prop :=
-  Forall (fun o => exists tag vs, o = Returned tag vs /\ True) (exec risk_prog risk_fuel body e).
+  Forall (fun o => exists tag vs e', o = Returned tag vs e' /\ True) (exec risk_prog risk_fuel body e).
 
 Ltac returns_auto := unfold always_returns, risk_fuel; intros; apply wp_returns; risk_simpl; risk_split; risk_arith.
 
